@@ -1,14 +1,204 @@
 /-
-C19 — geometry input survives a JSON round trip unchanged (property theorems only).
+C19 — geometry input survives a JSON round trip unchanged.
+Property theorems only (helpers: Lemmas/OrangeIO*.lean; model: Model/OrangeIO.lean, tied to
+OrangeInputIO.json.cc & co. by the correspondence harness; Generated/OrangeIOKeys.lean is
+regenerated from the source on every run).
+
+`encode num x` models `to_json(x)`; `num = Json.dbl` is the in-memory nlohmann object,
+`num = numText` is what `parse(dump(...))` returns (non-finite doubles become `null`).
+`decode` models `from_json`.  `x.Valid fin` is a decidable predicate; `fin = AnyDouble` for
+the in-memory statement, `fin = Finite` (bit pattern of a finite double) for the text one.
 -/
-import CelerVerif.Model.OrangeIO
+import CelerVerif.Lemmas.OrangeIOWitness
 
 namespace CelerVerif.OrangeIO
 open CelerVerif.Json
+
+/-! ### ★ the round trip -/
+
+/-- ★ C19 (through the JSON text, as a file): every `OrangeInput` satisfying `Valid Finite`
+    is returned unchanged by `from_json(parse(dump(to_json(x))))`: all universes, surfaces
+    (type + data), volumes (faces, logic, flags, zorder, bbox, labels), unit bboxes,
+    daughter placements and transforms, rect-array grids, tolerances — any sizes. -/
+theorem decode_encode (x : OrangeInput) (h : x.Valid Finite) :
+    bindR (encode numText x) decode = .ok x :=
+  decode_encode_gen numOK_text x h
+
+/-- ★ C19 (in memory, no text step): same with no finiteness requirement on doubles -/
+theorem decode_encode_in_memory (x : OrangeInput) (h : x.Valid AnyDouble) :
+    bindR (encode Json.dbl x) decode = .ok x :=
+  decode_encode_gen numOK_mem x h
+
+/-- ★ C19 for inputs built by the construction API (`UnitProto::build` fills in
+    `VolumeInput::obz`): everything except the oriented bounding zones comes back — the result
+    is the input with every `obz` reset to the default-constructed value, provided that
+    stripped input is `Valid`. -/
+theorem decode_encode_modulo_obz (x : OrangeInput) (h : x.stripObz.Valid Finite) :
+    bindR (encode numText x) decode = .ok x.stripObz := by
+  rw [← encode_stripObz]
+  exact decode_encode_gen numOK_text _ h
+
+/-- `Valid` is decidable (it is evaluated on witnesses below) -/
+theorem valid_decidable (x : OrangeInput) : x.Valid Finite ∨ ¬ x.Valid Finite :=
+  Decidable.em _
+
+/-! ### component round trips -/
+
+/-- labels: `from_separator(to_string(l)) = l` iff-direction needed: ext has no '@' and the
+    name has none when ext is empty (the split is at the LAST '@') -/
+theorem label_roundtrip_valid (l : Label) (h : l.Valid) :
+    decodeLabel (encodeLabel l) = .ok l :=
+  decodeLabel_encodeLabel l h
+
+/-- bounding boxes: the canonical null box, and every non-null box without a ±DBL_MAX
+    coordinate (infinite coordinates travel as ±DBL_MAX) -/
+theorem bbox_roundtrip (b : BBox) (h : b.RT) : decodeBBox (encodeBBox numText b) = .ok b :=
+  decodeBBox_encodeBBox numOK_text b h
+
+theorem tolerance_roundtrip (t : Tol) (hv : t.valid = true) (hf : Finite t.rel ∧ Finite t.abs) :
+    decodeTol (encodeTol numText t) = .ok t :=
+  decodeTol_encodeTol numOK_text t hv hf
+
+/-- all three transform variants (0, 3, 12 numbers) -/
+theorem transform_roundtrip (t : Transform) (h : t.Fin Finite) :
+    importTransform (exportTransform numText t) = .ok t :=
+  importTransform_export numOK_text t h
+
+/-- C10.7: `string_to_logic (logic_to_string l) = l` for every list of face ids (< lbegin,
+    any number of digits) and operator tokens `* | & ~` -/
+theorem logicString_roundtrip (l : List UInt64) (h : ∀ t ∈ l, tokenOK t) :
+    stringToLogic (logicToString l) = .ok l :=
+  stringToLogic_logicToString l h
+
+/-- zipped surfaces (types / data / sizes arrays), any number of surfaces of the 17 readable
+    types -/
+theorem surfaces_roundtrip (ss : List Surface) (h : ∀ s ∈ ss, s.Valid Finite) :
+    decodeSurfaces (encodeSurfaces numText ss) = .ok ss :=
+  decodeSurfaces_encodeSurfaces numOK_text ss h
+
+/-- a volume comes back with everything but its label (stored by the unit) -/
+theorem volume_roundtrip (v : Volume) (h : v.Valid) :
+    decodeVolume (encodeVolume numText v) = .ok { v with label := ⟨"", ""⟩ } :=
+  decodeVolume_encodeVolume numOK_text v h
+
+theorem unit_roundtrip (u : UnitInput) (h : u.Valid Finite) :
+    decodeUnit (encodeUnit numText u) = .ok u :=
+  decodeUnit_encodeUnit numOK_text u h
+
+theorem rectarray_roundtrip (r : RectArray) (h : r.Valid Finite) :
+    bindR (encodeRect numText r) decodeRect = .ok r :=
+  decodeRect_encodeRect numOK_text r h
+
+/-- the seven named z-orders survive `to_char`/`to_zorder` -/
+theorem zorder_named_roundtrip :
+    ∀ z ∈ Generated.OrangeIO.zorderToChar.map (fun p => UInt64.ofNat p.1),
+      zorderOfChar (zorderToChar z) = z := by decide
+
+/-! ### where the round trip is FALSE in the code as written (outside `Valid`) -/
+
+/-- the reader never sets `VolumeInput::obz`, whatever the JSON -/
+theorem obz_never_read (j : Json) (v : Volume) (h : decodeVolume j = .ok v) :
+    v.obz = OBZ.default :=
+  decodeVolume_obz j v h
+
+/-- ... so an input whose volume has an oriented bounding zone (as built by UnitProto) does
+    not come back: the read succeeds and differs -/
+theorem obz_not_roundtrip :
+    ¬ wObz.Valid AnyDouble ∧ bindR (encode Json.dbl wObz) decode ≠ .ok wObz :=
+  ⟨by decide, isOkEq_false_ne (by decide)⟩
+
+/-- involute surfaces are written but the reader's `visit_surface_type` has no `inv` case -/
+theorem involute_not_readable :
+    ¬ wInvolute.Valid AnyDouble ∧ bindR (encode Json.dbl wInvolute) decode = .error .ub :=
+  ⟨by decide, isErr_eq (by decide)⟩
+
+/-- a bbox coordinate equal to DBL_MAX comes back as +inf -/
+theorem bbox_dblmax_not_roundtrip :
+    decodeBBox (encodeBBox Json.dbl boxMax) = .ok ⟨⟨0, 0, 0⟩, ⟨posInf, d1, d1⟩⟩ ∧
+    bindR (encode Json.dbl wBoxMax) decode ≠ .ok wBoxMax :=
+  ⟨isOkEq_eq (by decide), isOkEq_false_ne (by decide)⟩
+
+/-- a zero `Translation` in a rect array comes back as `NoTransformation` -/
+theorem rect_zero_translation_not_roundtrip :
+    bindR (encode Json.dbl wRectZero) decode =
+      .ok ⟨[.rect ⟨⟨"arr", ""⟩, [0, d1], [0, d1], [0, d1], [⟨0, .none⟩]⟩], tolW⟩ ∧
+    bindR (encode Json.dbl wRectZero) decode ≠ .ok wRectZero :=
+  ⟨isOkEq_eq (by decide), isOkEq_false_ne (by decide)⟩
+
+/-- a rect array with a rotated daughter is refused on write (CELER_NOT_IMPLEMENTED) -/
+theorem rect_transformation_not_writable : encode Json.dbl wRectRot = .error .validate :=
+  isErr_eq (by decide)
+
+/-- a label "a@b" without extension comes back as name "a", ext "b" -/
+theorem label_at_not_roundtrip :
+    labelFromString (labelToString ⟨"a@b", ""⟩) = ⟨"a", "b"⟩ ∧
+    bindR (encode Json.dbl wLabelAt) decode ≠ .ok wLabelAt :=
+  ⟨by decide, isOkEq_false_ne (by decide)⟩
+
+/-- a unit whose bbox is null is written without "bbox" and read back infinite -/
+theorem unit_null_bbox_not_roundtrip :
+    bindR (encode Json.dbl wUnitNull) decode = .ok (mkInput vol0) ∧ mkInput vol0 ≠ wUnitNull :=
+  ⟨isOkEq_eq (by decide), by decide⟩
+
+/-- a non-canonical null volume bbox comes back as the canonical null box -/
+theorem null_bbox_canonicalised :
+    bindR (encode Json.dbl wNullBox) decode = .ok (mkInput { vol0 with bbox := BBox.null }) ∧
+    mkInput { vol0 with bbox := BBox.null } ≠ wNullBox :=
+  ⟨isOkEq_eq (by decide), by decide⟩
+
+/-- a background volume is read back with logic {true, not} and a null bbox, whatever was
+    written -/
+theorem background_volume_overwritten :
+    bindR (encode Json.dbl wBackground) decode ≠ .ok wBackground :=
+  isOkEq_false_ne (by decide)
+
+/-- a volume with empty logic (allowed by `VolumeInput::operator bool` when `implicit_vol` is
+    set) is written without "logic", and the reader then throws -/
+theorem empty_logic_not_readable :
+    bindR (encode Json.dbl wEmptyLogic) decode = .error .json :=
+  isErr_eq (by decide)
+
+/-- a non-finite double outside a bbox survives in memory but not through the text -/
+theorem nonfinite_text_not_readable :
+    bindR (encode Json.dbl wInfSurface) decode = .ok wInfSurface ∧
+    bindR (encode numText wInfSurface) decode = .error .json :=
+  ⟨isOkEq_eq (by decide), isErr_eq (by decide)⟩
+
+/-! ### key inventories regenerated from the source -/
 
 /-- the key inventory of the hand-written model is the one regenerated from the source -/
 theorem model_keys_match_source :
     modelKeysWritten = Generated.OrangeIO.keysWritten ∧
     modelKeysRead = Generated.OrangeIO.keysRead := by decide
+
+/-- every key written by a `to_json` is read by the matching `from_json` ("_type" of a
+    universe is read by `from_json(OrangeInput)`) -/
+theorem keys_written_subset_read :
+    ∀ p ∈ Generated.OrangeIO.keysWritten, ∀ k ∈ p.2,
+      k ∈ (Generated.OrangeIO.keysRead.lookup p.1).getD [] ∨
+      (k = "_type" ∧ k ∈ (Generated.OrangeIO.keysRead.lookup "OrangeInput").getD []) := by
+  decide
+
+/-- the strings written for format / universe type / units are accepted by the reader -/
+theorem written_strings_accepted :
+    Generated.OrangeIO.formatWritten ∈ Generated.OrangeIO.formatsRead ∧
+    (∀ t ∈ Generated.OrangeIO.universeTypesWritten, t ∈ Generated.OrangeIO.universeTypesRead) ∧
+    nativeUnits ∈ Generated.OrangeIO.unitSystems := by decide
+
+/-! ### non-vacuity -/
+
+example : wInput.Valid Finite := by decide
+example : wObz.stripObz.Valid Finite ∧ wObz.stripObz ≠ wObz := by decide
+example : wInput.universes.length = 2 ∧ wUnit.surfaces.length = 3 ∧ wUnit.daughters.length = 3 :=
+  by decide
+example : bindR (encode numText wInput) decode = .ok wInput := decode_encode wInput (by decide)
+example : (⟨"b@c", "y"⟩ : Label).Valid ∧ ¬ (⟨"a@b", ""⟩ : Label).Valid := by decide
+example : wVol1.bbox.RT ∧ BBox.null.RT ∧ ¬ boxMax.RT := by decide
+example : tolW.valid = true ∧ tolW ≠ Tol.default := by decide
+example : (∀ t ∈ wVol1.logic, tokenOK t) ∧ ¬ tokenOK (UInt64.ofNat Generated.OrangeIO.lend) := by
+  decide
+example : (Transform.transformation ⟨0, d1, 0⟩ ⟨dm1, 0, 0⟩ ⟨0, 0, d1⟩ ⟨0, 0, d2⟩).Fin Finite := by
+  decide
+example : wRect.Valid Finite ∧ wUnit.Valid Finite := by decide
 
 end CelerVerif.OrangeIO
